@@ -32,5 +32,39 @@ def fill(chk, not_yet):
         "brute-force enumeration and counting recursion (reference) cross-check each other.",
         "runtime monitoring: exhaustive replay of shuffles vs brute-force linear extensions",
         "DESIGN.md 4/C09")
+    chk("C06", "exploration",
+        "rebuild_equal after every edit of generated histories in the samplers' own grammar (SMC placement with dict hop, "
+        "data-point move, prune-regraft, subtree extraction/re-attachment with carried outliers, relabel, copy, dict/"
+        "pickle round trips): every clone's vectors, root vector, both densities, ==/hash against a fresh bottom-up "
+        "build; alias guard re-digests source trees. Held on the histories generated, not a proof.",
+        "tolerance 1e-8 relative; deviations confined to entries outside the C02 underflow window (band from the "
+        "interval reference recursion wider than 1e-9) are counted, not reported - the property's own quantifier.",
+        "runtime monitoring: invariant-at-a-hook (rebuild oracle) over generated edit histories",
+        "DESIGN.md 4/C06")
+    chk("C07", "exploration",
+        "tree_wellformed as an icontract postcondition on every Tree mutator/producer, data-conservation postconditions "
+        "on every sampler's sample_tree and on the retained path, during generated edit histories, direct sampler calls "
+        "on random trees (<=7 points, <=6 children, shuffled siblings) and instrumented run_phyclone_chain runs.",
+        "only states at public method boundaries are checked; reads private dictionaries with .get only.",
+        "runtime monitoring: icontract postconditions / structural invariant at hooks under generated workloads",
+        "DESIGN.md 4/C07, 3.4")
+    chk("C15", "exploration",
+        "(a) dict / pickle / gzip-file round trips of trees reached in generated histories (index gaps, outlier-only, "
+        "relabelled grafts) compared at once and after each of 12 further shared edits; (b) traces of the real "
+        "phyclone.run.run over generated configurations: every entry restored, well-formed over all data, log_p_one "
+        "recomputed under the entry's alpha, first entry = burn-in result, iter sequence = thinning multiples (prefix "
+        "under a time limit).",
+        "after a relabel applied to both copies clones are matched by clade (labels are arbitrary ids); 1e-8/1e-9 "
+        "relative tolerances; data inside the C02 window.",
+        "runtime monitoring: round-trip oracle on generated histories + offline checker over recorded traces",
+        "DESIGN.md 4/C15")
+    chk("C19", "exploration",
+        "Real phyclone.run.run in-process on generated inputs over random points of the CLI cross-product whose value "
+        "tables contain every range boundary (single data point, threshold 0/1, particles 1, outlier prob 0/1e-4/0.3/1, "
+        "subtree prob 0/1, time limit 0, alpha 1e-6..1e6 ...), plus forced extreme Gamma draws; no exception; every "
+        "entry well-formed over all data with finite log_p_one.",
+        "alpha>0, precision>0, print frequency>=1 (model's domain); multi-chain / click entry covered by C18/C20.",
+        "runtime monitoring: configuration sweep of the real run loop with trace-entry monitors and boundary injection at the continuous draws",
+        "DESIGN.md 4/C19")
     for pid in ["C02","C03","C05","C06","C07","C08","C09","C10","C11","C12","C13","C14","C15","C16","C17","C18","C19","C20"]:
         not_yet[pid] = "check under construction in this session (runtime monitor designed in DESIGN.md section 4); not claimed until it runs clean"
